@@ -42,7 +42,88 @@ def _ident():
     return _ID["i"]
 
 
+SRP_CLASSES = ("K", "S", "A", "B", "M1", "M2")
+
+
+def directed_search(cls: str, seed: int, code: str, limit: int = 6000):
+    """Search (with the independent SRP server only) for client key a, server key b and salt such that a value of
+    the exchange starts with a zero byte: K = H(S) (session key), S (premaster secret), A / B (public keys),
+    M1 / M2 (client / server proof).  Deterministic in `seed`.  -> dict(a, b, salt) as ints/bytes, or None."""
+    from harness.refacc import srp as R
+    rng = random.Random(f"{seed}/{cls}")
+    salt = rng.randbytes(16)
+    b = rng.getrandbits(256) | 1
+    srv = R.SrpServer("Pair-Setup", code, salt=salt, b=b)
+    for _ in range(limit):
+        a = rng.getrandbits(128) | 1          # the real client draws 16 random bytes
+        if cls == "B":                        # vary the server key (and salt) instead
+            salt = rng.randbytes(16)
+            b = rng.getrandbits(256) | 1
+            srv = R.SrpServer("Pair-Setup", code, salt=salt, b=b)
+            if srv.public_bytes()[0] == 0:
+                return {"a": a, "b": b, "salt": salt}
+            continue
+        big_a = pow(R.G, a, R.N)
+        if cls == "A":
+            if R.pad(big_a)[0] == 0:
+                return {"a": a, "b": b, "salt": salt}
+            continue
+        srv.set_client_public(R.pad(big_a))
+        if cls == "S":
+            hit = R.pad(srv.S)[0] == 0
+        elif cls == "K":
+            hit = srv.K[0] == 0
+        else:
+            m1 = srv.expected_client_proof()
+            hit = m1[0] == 0 if cls == "M1" else srv.server_proof(m1)[0] == 0
+        if hit:
+            return {"a": a, "b": b, "salt": salt}
+    return None
+
+
 def run_job(job):
+    if job.get("directed"):
+        return _run_directed(job)
+    return _run_job(job)
+
+
+def _run_directed(job):
+    """Honest exchange whose SRP values have a leading zero byte: the randomness of the real SrpClient is pinned
+    (Srp.generate_private_key replaced for the duration of the run - harness side only), the accessory's salt and
+    key are the ones found by directed_search."""
+    import aiohomekit.crypto.srp as LS
+    from harness import pairing_driver as D
+    from harness.refacc import srp as R
+    d = job["directed"]
+    hit = directed_search(d["cls"], d["n"], D.PIN)
+    if hit is None:
+        return {"observed": "machinery", "exc": f"no SRP exchange with a leading zero in {d['cls']} found", "m3sent": False,
+                "m5sent": False, "problems": []}
+    orig = LS.Srp.__dict__["generate_private_key"]
+    LS.Srp.generate_private_key = staticmethod(lambda: hit["a"])
+    holder = {}
+    try:
+        res = _run_job(dict(job, srp_params=(hit["salt"], hit["b"])), holder)
+    finally:
+        LS.Srp.generate_private_key = orig
+    acc = holder.get("acc")
+    srv = acc.ps.srp if acc is not None and acc.ps is not None else None
+    if res["observed"] == "machinery":
+        return res
+    if srv is None or srv.A != pow(R.G, hit["a"], R.N):
+        # the real client did not use the pinned key: the harness no longer controls the library's randomness
+        return dict(res, observed="machinery", exc="the real SrpClient did not use the pinned private key")
+    val = {"K": srv.K, "S": R.pad(srv.S), "A": R.pad(srv.A), "B": srv.public_bytes(),
+           "M1": srv.expected_client_proof(), "M2": srv.server_proof(srv.expected_client_proof())}[d["cls"]]
+    if val[0] != 0:
+        return dict(res, observed="machinery", exc=f"directed search hit for {d['cls']} not reproduced in the exchange")
+    if acc.ps.m3_ok is not True:
+        res["problems"].append(f"conformant accessory rejects the controller's SRP proof M3 (leading zero byte in {d['cls']})")
+    res["directed"] = {"cls": d["cls"], "a": "%x" % hit["a"], "b": "%x" % hit["b"], "salt": hit["salt"].hex()}
+    return res
+
+
+def _run_job(job, holder=None):
     from cryptography.hazmat.primitives import serialization
     from cryptography.hazmat.primitives.asymmetric import ed25519
     from harness import pairing_driver as D
@@ -89,7 +170,9 @@ def run_job(job):
             return sent["m6"]
         return None
 
-    acc = D.ScriptedAccessory(ident=ident, hook=hook, fresh_srp=bool(job.get("fresh")))
+    acc = D.ScriptedAccessory(ident=ident, hook=hook, fresh_srp=bool(job.get("fresh")), srp_params=job.get("srp_params"))
+    if holder is not None:
+        holder["acc"] = acc
     try:
         if tr == "gen":
             o = D.gen_pair_setup(acc, pin, ios_id, real_decoder=True)
@@ -183,6 +266,8 @@ def _short(c, j=None):
             s += f" alteration={j['how']} in {j['site']}"
         if j.get("cut_bytes"):
             s += f" cut {j['cut_bytes']} bytes into the next item of {j['site']}"
+        if j.get("directed"):
+            s += f" [SRP values chosen so that {j['directed']['cls']} starts with a zero byte, search #{j['directed']['n']}]"
     return s
 
 
@@ -246,6 +331,11 @@ def _jobs(ctx, cases):
             jobs.append(j)
     if any(c["honest"] for c in cases):
         h = next(c for c in cases if c["honest"] and not c["m4"]["mfi"])
+        # directed honest exchanges: leading zero bytes in K, S, A, B, M1, M2 (each about 1 exchange in 256 by chance)
+        for cls in SRP_CLASSES:
+            for n in range(ctx.pick(3, 12)):
+                jobs.append({"case": h, "tr": ["gen", "ip", "coap", "ble", "blefrag"][n % 5] if n else "gen",
+                             "directed": {"cls": cls, "n": (ctx.seed % 1000003) * 100 + n}})
         # honest exchanges with fresh salts / SRP keys / identities (the record must be consistent for all of them)
         for _ in range(ctx.pick(16, 200)):
             jobs.append({"case": h, "tr": rng.choice(["gen", "gen", "ip", "coap", "ble", "blefrag"]), "fresh": rng.getrandbits(48) | 1})
@@ -297,8 +387,10 @@ def run(ctx):
             if res.get("degenerate"):            # e.g. a front truncation that only removed zero bytes (p = 2^-8 per byte)
                 ctx.notes["degenerate_concretisations_skipped"] = ctx.notes.get("degenerate_concretisations_skipped", 0) + 1
                 continue
-            ctx.case((json.dumps([c["m2"], c["m4"], c["m6"]], sort_keys=True), j["tr"], str(j.get("how")), j.get("cut_bytes"))
-                     if not c["honest"] else None)
+            ctx.case((json.dumps([c["m2"], c["m4"], c["m6"]], sort_keys=True), j["tr"], str(j.get("how")), j.get("cut_bytes"),
+                      json.dumps(j.get("directed"))) if not c["honest"] or j.get("directed") else None)
+            if j.get("directed") and len(ctx.samples) < 6 and j["directed"]["cls"] in ("K", "S") and j["directed"]["n"] % 100 == 0:
+                ctx.sample({"directed_srp_exchange": res.get("directed"), "transport": j["tr"], "observed": res["observed"]})
             bad = []
             if res["observed"] == "baseexc":
                 bad.append(("raised a BaseException", res["exc"]))
@@ -350,7 +442,7 @@ def run(ctx):
 
 def _jsonable_job(j):
     return {"case": j["case"], "tr": j["tr"], "how": list(j["how"]) if j.get("how") else None, "cut_bytes": j.get("cut_bytes"),
-            "site": j.get("site"), "fresh": j.get("fresh", 0)}
+            "site": j.get("site"), "fresh": j.get("fresh", 0), "directed": j.get("directed")}
 
 
 def _replay(ctx):
